@@ -16,8 +16,9 @@ sys_path_tools = os.path.join(VERIF, "tools")
 import sys as _sys
 if sys_path_tools not in _sys.path:
     _sys.path.insert(0, sys_path_tools)
-from gen_harness import PALETTE16, query_family, views_text, filter_text  # noqa: E402
+from gen_harness import PALETTE16, query_family, entries_family, views_text, filter_text  # noqa: E402
 QFAM = {5: query_family(5), 16: query_family(16)}
+EFAM = {5: entries_family(5), 16: entries_family(16)}
 CACHE = os.path.join(BUILD, "cache")
 
 
@@ -82,7 +83,7 @@ def gen_case(rng, max_ops, mirror=False, ncomp=5):
         ws = rng.choice(wss)
         kind = rng.weighted([("ins", 22), ("ext", 12), ("rem", 18), ("ead", 8), ("erm", 8), ("wrt", 6),
                              ("clr", 2), ("shr", 3), ("rsv", 3), ("rset", 2), ("cln", 3), ("clf", 3),
-                             ("srd", 4), ("eq", 3), ("drop", 1), ("new", 1), ("qry", 9), ("eqry", 5), ("qwr", 3), ("mde", 6)])
+                             ("srd", 4), ("eq", 3), ("drop", 1), ("new", 1), ("qry", 9), ("eqry", 4), ("nqry", 5), ("qwr", 3), ("mde", 6), ("pqry", 7), ("pqwr", 3)])
         if kind == "ins":
             mask = rng.choice(palette) if rng.chance(5, 6) else anymask()
             desc = rng.below(2)
@@ -136,12 +137,21 @@ def gen_case(rng, max_ops, mirror=False, ncomp=5):
                                                   rng.below(20))).replace("  ", " "))
         elif kind == "rset":
             lines.append("rset %d %d %d %d" % (ws, rng.below(4), fresh(), rng.below(3)))
-        elif kind in ("qry", "eqry", "qwr"):
+        elif kind == "nqry":
+            fam = EFAM[ncomp]
+            k = rng.below(len(fam))
+            E, S, F = fam[k]
+            lines.append("nqry %d %s %d %s %s %s" % (ws, target(ws), k, views_text(E), views_text(S), filter_text(F)))
+        elif kind in ("qry", "eqry", "qwr", "pqry", "pqwr"):
             fam = QFAM[ncomp]
             k = rng.below(len(fam))
             vs, f = fam[k]
-            if kind == "qry":
-                lines.append("qry %d %d %s %s" % (ws, k, views_text(vs), filter_text(f)))
+            if kind == "pqry":
+                lines.append("pqry %d %d %s %s" % (ws, k, views_text(vs), filter_text(f)))
+            elif kind == "pqwr":
+                lines.append("pqwr %d %d %d %s %s" % (ws, k, 1 + rng.below(1000), views_text(vs), filter_text(f)))
+            elif kind == "qry":
+                lines.append("qry %d %d %s %s %d" % (ws, k, views_text(vs), filter_text(f), rng.choice([0, 0, 1, 2, 3])))
             elif kind == "eqry":
                 lines.append("eqry %d %s %d %s %s" % (ws, target(ws), k, views_text(vs), filter_text(f)))
             else:
@@ -282,7 +292,7 @@ def run_cases(cases, workdir, shards=16, tag="wh"):
                 f.write("end\n")
         impl = os.path.join(workdir, "%s.%d.impl" % (tag, s))
         mod = os.path.join(workdir, "%s.%d.model" % (tag, s))
-        cmd = "timeout 1200 %s %s > %s && timeout 1200 %s %s > %s" % (wh, ops, impl, model, impl, mod)
+        cmd = "VERIF_POOL=%d timeout 1200 %s %s > %s && timeout 1200 %s %s > %s" % ([1, 2, 4, 16][s % 4], wh, ops, impl, model, impl, mod)
         procs.append((subprocess.Popen(cmd, shell=True, stderr=subprocess.PIPE, text=True), impl, mod, a, len(chunk), ops))
     out = []
     for p, impl, mod, first, n, ops in procs:
@@ -767,7 +777,8 @@ class RefWorlds:
             ws = int(t[1])
             if ws in self.res:
                 self.res[ws][int(t[2])] = norm_val(100 + int(t[2]), int(t[3]))
-        elif k == "qry":
+        elif k in ("qry", "pqry"):
+            prop = "C03" if k == "qry" else "C09"
             ws = int(t[1])
             if ws in self.maps:
                 vs, f = parse_views_text(t[3]), parse_filter_text(t[4])
@@ -776,19 +787,22 @@ class RefWorlds:
                 flags = [x for x in (got or []) if x.startswith("!")]
                 got = [x for x in (got or []) if not x.startswith("!")] if got is not None else None
                 if flags:
-                    fails.append(("C03", "size_hint does not bracket the remaining count: %s (query %s %s)" % (flags[0], t[3], t[4])))
+                    fails.append((prop, ("size_hint does not bracket the remaining count: %s (query %s %s)" if k == "qry" else
+                                         "parallel iteration handed out aliasing mutable items: %s (query %s %s)") % (flags[0], t[3], t[4])))
                 if got != want:
-                    fails.append(("C03", "query %s filter %s returned %s, the map holds %s" % (t[3], t[4], got, want)))
-        elif k == "eqry":
+                    fails.append((prop, "%squery %s filter %s returned %s, the map holds %s"
+                                  % ("" if k == "qry" else "parallel ", t[3], t[4], got, want)))
+        elif k in ("eqry", "nqry"):
             ws = int(t[1])
             if ws in self.maps:
                 e = eid(t[2])
-                vs, f = parse_views_text(t[4]), parse_filter_text(t[5])
+                vs, f = (parse_views_text(t[4]), parse_filter_text(t[5])) if k == "eqry" else \
+                    (parse_views_text(t[5]), parse_filter_text(t[6]))
                 cv = self.maps[ws].get(e)
                 want = "noentry" if cv is None else ("row " + spec_row(vs, e, cv) if spec_matches(vs, f, cv) else "nomatch")
                 if ret != want:
                     fails.append(("C03", "entry query %s filter %s on %s returned %r, expected %r" % (t[4], t[5], e, ret, want)))
-        elif k == "qwr":
+        elif k in ("qwr", "pqwr"):
             ws = int(t[1])
             if ws in self.maps:
                 delta = int(t[3])
@@ -801,7 +815,7 @@ class RefWorlds:
                                 cv[c] = norm_val(c, (cv[c] + delta) & 0xFFFFFFFFFFFFFFFF)
                                 n += 1
                 if ret != "n %d" % n:
-                    fails.append(("C03", "mutable query %s filter %s wrote %r components, expected %d" % (t[4], t[5], ret, n)))
+                    fails.append(("C03" if k == "qwr" else "C09", "mutable query %s filter %s wrote %r components, expected %d" % (t[4], t[5], ret, n)))
         elif k == "mde":
             # the source world does not exist: the harness only clears the destination
             src, dst = int(t[1]), int(t[2])
@@ -968,7 +982,7 @@ def oracle_case(impl_case):
             if comps_ is not None and int(t[3]) in comps_:
                 overwritten = (int(t[3]), comps_[int(t[3])])
         qwr_drops = None
-        if k == "qwr" and int(t[1]) in ref.maps:
+        if k in ("qwr", "pqwr") and int(t[1]) in ref.maps:
             qvs, qf = parse_views_text(t[4]), parse_filter_text(t[5])
             qwr_drops = Counter()
             for e_, cv_ in ref.maps[int(t[1])].items():
@@ -1043,7 +1057,7 @@ def oracle_case(impl_case):
                         k11_leaked.update(leaked)
                     else:
                         fails.append((i, "C11", "failed deserialization leaked values: %s (%s)" % (sorted(leaked.elements())[:6], st["ret"][:80])))
-        elif k == "qwr":
+        elif k in ("qwr", "pqwr"):
             exp = qwr_drops if qwr_drops is not None else Counter()
         else:
             for (c, v), n in (before - after).items():
